@@ -22,11 +22,15 @@ pub struct Profile {
     pub max_nodes: usize,
     pub fanout: u64,
     pub rich_output: bool,
+    /// percentage of messages that are outside the chain model (staking, distribution, ibc, gov, stargate)
+    pub opaque_pct: u64,
+    /// percentage of top-level operations that store / duplicate code
+    pub code_ops_pct: u64,
 }
 
 impl Profile {
     pub fn base() -> Profile {
-        Profile { fail_pct: 15, bad_attr_pct: 3, registry_pct: 10, admin_pct: 6, funds_pct: 30, probe_pct: 50, write_pct: 70, crafted_keys: false, max_depth: 5, max_nodes: 24, fanout: 3, rich_output: true }
+        Profile { fail_pct: 15, bad_attr_pct: 3, registry_pct: 10, admin_pct: 6, funds_pct: 30, probe_pct: 50, write_pct: 70, crafted_keys: false, max_depth: 5, max_nodes: 24, fanout: 3, rich_output: true, opaque_pct: 0, code_ops_pct: 3 }
     }
 }
 
@@ -234,6 +238,10 @@ impl<'a> Gen<'a> {
 
     /// A message sent by `sender` (a user at top level, the executing contract below).
     pub fn msg(&mut self, m: &ChainM, sender: &str, depth_left: usize) -> Msg {
+        if self.p.opaque_pct > 0 && self.pct(self.p.opaque_pct) {
+            self.nodes_left = self.nodes_left.saturating_sub(1);
+            return Msg::Opaque(self.opaque());
+        }
         let r = self.rng.below(100);
         let reg = self.p.registry_pct;
         let adm = self.p.admin_pct;
@@ -270,6 +278,27 @@ impl<'a> Gen<'a> {
                 self.nodes_left = self.nodes_left.saturating_sub(1);
                 Msg::Custom { tag: self.tag, fail: self.pct(30) }
             }
+        }
+    }
+
+    /// A message for one of the modules outside the chain model.
+    pub fn opaque(&mut self) -> cosmwasm_std::CosmosMsg<PMsg> {
+        use cosmwasm_std::{CosmosMsg, DistributionMsg, StakingMsg};
+        let val = self.rng.pick(&["validator0", "validator1", "nobody"]).to_string();
+        let amount = match self.rng.below(6) {
+            0 => coin(0, "TOKEN"),
+            1 => coin(5, "ua"),
+            2 => coin(1_000_000_000, "TOKEN"),
+            _ => coin(self.rng.range_u128(1, 60), "TOKEN"),
+        };
+        match self.rng.below(12) {
+            0..=3 => CosmosMsg::Staking(StakingMsg::Delegate { validator: val, amount }),
+            4..=5 => CosmosMsg::Staking(StakingMsg::Undelegate { validator: val, amount }),
+            6 => CosmosMsg::Staking(StakingMsg::Redelegate { src_validator: val, dst_validator: self.rng.pick(&["validator0", "validator1"]).to_string(), amount }),
+            7..=8 => CosmosMsg::Distribution(DistributionMsg::WithdrawDelegatorReward { validator: val }),
+            9 => CosmosMsg::Distribution(DistributionMsg::SetWithdrawAddress { address: self.rng.pick(&self.users).clone() }),
+            10 => CosmosMsg::Gov(cosmwasm_std::GovMsg::Vote { proposal_id: 1, option: cosmwasm_std::VoteOption::Yes }),
+            _ => CosmosMsg::Ibc(cosmwasm_std::IbcMsg::CloseChannel { channel_id: "channel-0".into() }),
         }
     }
 
@@ -341,7 +370,8 @@ impl<'a> Gen<'a> {
     pub fn top(&mut self, m: &ChainM) -> Top {
         self.nodes_left = self.p.max_nodes;
         let depth = self.rng.range(1, self.p.max_depth as u64) as usize;
-        match self.rng.below(100) {
+        let roll = if self.pct(self.p.code_ops_pct) { 99 } else { self.rng.below(97) };
+        match roll {
             0..=59 => {
                 let sender = self.sender(m);
                 // for admin operations pick the right signer half of the time
